@@ -46,7 +46,7 @@ CHECKS = {
 
  "C08": ("enum", "model_checking",
          "bounded-exhaustive enumeration of operator tables × token sequences, parsed by the real lexer+parser and by an independent shunting-yard reference parser; trees and node spans compared",
-         "For 81 (thorough 729) operator tables over two infix symbols × {left, right, non-associative} × binding powers {3, 3.5, 4}, one prefix and one postfix symbol, plus the built-in table (also over a parenthesis / comparison alphabet and a conditional-inside-literal alphabet {a ? : [ ] , +}, 7 tokens), three declaration orders of a table whose symbols are prefixes of one another, 45 tables with powers around the grammar's own call / member powers, an identifier-like-operator table and a literal-forms table, every token sequence up to the length bound (5 tokens over the 13-symbol alphabet incl. ( ) ? : . [ ] , ; 7 / 9 tokens over the operator-only and ternary alphabets) is parsed by the real code and by the reference (hand-written scanner + two-stack operator-precedence parser): accept / reject, the tree and every node's span (rune range, line, column; one family is newline-separated) must agree. Non-associative self-chains must be rejected in every context.",
+         "For 81 (thorough 729) operator tables over two infix symbols × {left, right, non-associative} × binding powers {3, 3.5, 4}, one prefix and one postfix symbol, plus the built-in table (also over a parenthesis / comparison alphabet and a conditional-inside-literal alphabet {a ? : [ ] , +}, 7 tokens), three declaration orders of a table whose symbols are prefixes of one another, 45 tables with powers around the grammar's own call / member powers, an identifier-like-operator table and a literal-forms table, every token sequence up to the length bound (5 tokens over the 13-symbol alphabet incl. ( ) ? : . [ ] , ; 7 / 9 tokens over the operator-only and ternary alphabets) is parsed by the real code and by the reference (hand-written scanner + two-stack operator-precedence parser): accept / reject, the tree and every node's span (rune range, line, column; one family is newline-separated) must agree. Non-associative self-chains must be rejected in every context. For every ninth table one parser object parses all sequences of a case and must agree with a fresh parser.",
          "Trusted: mc/ref/lex.go + mc/ref/parse.go (a different parsing algorithm driven only by the declarations). Bound: <= 2 infix symbols per table, one role per symbol except the built-in table.",
          "DESIGN.md §4 C08"),
  "C09": ("enum", "model_checking",
@@ -62,7 +62,7 @@ CHECKS = {
          "DESIGN.md §4 C18"),
  "C20": ("enum", "model_checking",
          "bounded-exhaustive enumeration of criteria trees and adversarial operands; the emitted WHERE text is re-read by an independent SQL boolean-expression reader",
-         "All criteria trees of depth <= 2 over binary AND / OR, unary NOT and 12 leaf conditions (thorough: also depth 3 over 3 leaves), and every adversarial string / number operand in every condition that takes it inside four tree contexts: each criteria value (operand slices built with spare capacity) is lowered twice and each result rendered twice, all four texts must be identical; the text produced by ext.CompileToSql is tokenised and parsed with standard SQL precedence; the tree read back must equal the input modulo flattening of AND / OR, bound names must appear as their run-time values and unbound names as back-quoted columns, each string operand must be exactly one quoted literal that decodes to the operand, numbers must be plain numeric literals that read back as the same double, booleans 1 / 0, instants from_unixtime(n).",
+         "All criteria trees of depth <= 2 over binary AND / OR, unary NOT and 15 leaf conditions (incl. an instant bound at run time with a sub-second part and IN lists that mix bound names and literals in both orders) (thorough: also depth 3 over 3 leaves), and every adversarial string / number operand in every condition that takes it inside four tree contexts: each criteria value (operand slices built with spare capacity) is lowered twice and each result rendered twice, all four texts must be identical; the text produced by ext.CompileToSql is tokenised and parsed with standard SQL precedence; the tree read back must equal the input modulo flattening of AND / OR, bound names must appear as their run-time values and unbound names as back-quoted columns, each string operand must be exactly one quoted literal that decodes to the operand, numbers must be plain numeric literals that read back as the same double, booleans 1 / 0, instants from_unixtime(n).",
          "Trusted: mc/ref/sql.go (tokenizer + precedence reader). Assumes MySQL-style backslash escapes inside double-quoted literals.",
          "DESIGN.md §4 C20"),
 
@@ -89,7 +89,7 @@ CHECKS = {
          "DESIGN.md §4 C07"),
  "C13": ("enum", "model_checking",
          "explicit enumeration of ALL API histories up to the depth bound on one engine with shared environment objects, under all 8 map-iteration seeds, with a differential oracle against a fresh engine",
-         "Every history of <= 4 (thorough 5) operations over a 26-operation menu (compile e0..e4 against one shared *types.Env; invoke compiled expression k with one shared *val.Env, a host struct or a host map; Debug; compile / invoke an expression that calls function values chosen at run time; compile and invoke on a SECOND engine with the same shared environments) is executed on one engine under each of the 8 map-iteration seeds; the last operation's result, rendering (String() and string(x)), error class and captured standard output must equal the same operation on a brand-new engine with brand-new environments under seed 1; standard output must be empty unless the expression calls print; host values must deep-equal their snapshot. The expressions print, render multi-entry maps (also with keys that differ only in case) / objects, apply floor / ceil / round / abs / max to variables that are read again, call union / intersect / diff with several survivors, reach one value through two paths, and fail. A 300-compilation history checks that later compilations are unaffected.",
+         "Every history of <= 4 (thorough 5) operations over a 30-operation menu (two operations that compile ONE parsed tree through Expr.CompileExpr against differently typed environments, two that compile against host structs of one Go type whose pointer field is nil / set — in histories of <= 3 operations; compile e0..e4 against one shared *types.Env; invoke compiled expression k with one shared *val.Env, a host struct or a host map; Debug; compile / invoke an expression that calls function values chosen at run time; compile and invoke on a SECOND engine with the same shared environments) is executed on one engine under each of the 8 map-iteration seeds; the last operation's result, rendering (String() and string(x)), error class and captured standard output must equal the same operation on a brand-new engine with brand-new environments under seed 1; standard output must be empty unless the expression calls print; host values must deep-equal their snapshot. The expressions print, render multi-entry maps (also with keys that differ only in case) / objects, apply floor / ceil / round / abs / max to variables that are read again, call union / intersect / diff with several survivors, reach one value through two paths, and fail. A 300-compilation history checks that later compilations are unaffected.",
          "No state merging (a state is its history), so no canonicalisation argument is needed. The runtime overlay owns map-iteration order; stdout is captured through a pipe.",
          "DESIGN.md §4 C13"),
  "C14": ("sched", "model_checking",
@@ -109,7 +109,7 @@ CHECKS = {
          "DESIGN.md §4 C16"),
  "C19": ("enum", "model_checking",
          "bounded-exhaustive enumeration of single-line programs evaluated in debug mode; the record is read through the build-tag hook and compared with the reference evaluator's list of evaluated terms and their columns",
-         "All accepted programs of depth <= 2 (one nested operand) over the debug alphabet (ASCII / non-ASCII identifiers and strings, multi-line renderings, members, subscripts, method calls, list functions over a recorded list variable, operators, conditionals and short-circuit operators with unevaluated branches, failing accesses) in raw and host-map environments, plus 23 three-level programs: Debug must return normal evaluation's value / failure; the record (before rendering) must equal the reference's (value, column) list for exactly the evaluated variable / call / member / subscript terms in completion order, each at its own term's column; rendering must not fail, must keep the source as first line and show every recorded value at its column; yae.Debug's report must equal rendering that record.",
+         "All accepted programs of depth <= 2 (one nested operand) over the debug alphabet (ASCII / non-ASCII identifiers and strings, multi-line renderings, members, subscripts, method calls, list functions over a recorded list variable, operators, conditionals and short-circuit operators with unevaluated branches, failing accesses) in raw and host-map environments, plus 23 three-level programs: Debug must return normal evaluation's value / failure; the record (before rendering) must equal the reference's (value, column) list for exactly the evaluated variable / call / member / subscript terms in completion order, each at its own term's column; rendering must not fail, must keep the source as first line and show every recorded value at its column; the same record, cleared, must give the same entries on a second and third run; white space before the program must shift every column by its width; yae.Debug's report must equal rendering that record.",
          "Trusted: the column-tracking renderer (gen.Term.OwnCols) and the reference evaluator's completion order. Functions that evaluate one operand twice are excluded.",
          "DESIGN.md §4 C19"),
  "C17": ("enum", "model_checking",
